@@ -87,7 +87,7 @@ struct Gen {
         lr.set("pol", pol).set("k", pol == 1 ? (int)g.range(1, 12) : pol == 4 ? (int)g.range(1, 6) : 4).set("serial", serial);
         continue;
       }
-      do { r = pool_recipe(c.master, g.below(pool), many_ch); if (r.trim && (prop == "C20" || prop == "C19" || prop == "C03" || prop == "C13" || prop == "C12" || prop == "C17")) r.trim += r.trim & 1; /* half rate is toggled in these histories: keep the cut on the even grid */ if (p_bs64 > 0 && g.chance(p_bs64)) { r.bs64 = 1; r.cut = 0; r.trim = 0; r.sig = g.chance(0.75) ? 6 : 1; r.n = std::max<int64_t>(r.n, 3000); } l = get_link(r); } while ((!l->ok || l->ref_err || r.n * r.ch > budget) && ++tries < 20);
+      do { r = pool_recipe(c.master, g.below(pool), many_ch); if (r.trim && (prop == "C20" || prop == "C19" || prop == "C03" || prop == "C13" || prop == "C12" || prop == "C17" || prop == "C07")) r.trim += r.trim & 1; /* half rate is toggled in these histories: keep the cut on the even grid */ if (p_bs64 > 0 && g.chance(p_bs64)) { r.bs64 = 1; r.cut = 0; r.trim = 0; r.sig = g.chance(0.75) ? 6 : 1; r.n = std::max<int64_t>(r.n, 3000); } l = get_link(r); } while ((!l->ok || l->ref_err || r.n * r.ch > budget) && ++tries < 20);
       if (prop == "C17" && g.chance(0.03)) { Recipe z; z.ch = g.chance(0.7) ? 255 : 254; z.rate = 8000; z.q = 0.4; z.n = 1200 + 600 * (int64_t)g.below(3); z.sig = 2; z.seed = 7; z.ncomm = 1; auto lz = get_link(z); if (lz->ok && !lz->ref_err) { r = z; l = lz; } }   // the format's maximum channel count (the quick tier's recipe pool is too small to be sure of containing it)
       if (prop != "C04" && g.chance(prop == "C20" ? 0.14 : 0.07)) {   // a hand-built link (craft.cpp): block-size and mode patterns the encoder never produces, genuine 64-sample short blocks; noise audio with samples far outside +-1 (NaN samples are skipped by the integer oracle)
         static const long rates[] = {8000, 22050, 44100, 48000}; Recipe z; z.craft = 1; z.ch = (int)g.range(1, 3); z.rate = rates[g.below(4)]; z.seed = g.below(thorough ? 600 : 60); z.n = (int64_t)(20 + 30 * g.below(6)); z.ncomm = 1;
@@ -180,7 +180,7 @@ struct Gen {
       if (u < 0.06) { op("raw_seek").set("a", sr.ps.pages.empty() ? 0 : sr.ps.pages.back().off + (int64_t)g.below(20)); }                 // history: raw seek into the last page
       else if (u < 0.10) { op("pcm_seek").set("a", sr.total); read_op(0, 1); }                                                      // history: at EOF
       else if (u < 0.14) { op("tells"); continue; }
-      else if (u < 0.16 && prop == "C17") { op("halfrate").set("flag", (int64_t)g.below(2)); continue; }
+      else if (u < 0.16 && (prop == "C17" || prop == "C07")) { op("halfrate").set("flag", (int64_t)g.below(2)); continue; }   // "regardless of which calls were made before": the reference is then the half-rate linear decode
       else if (u < 0.17) { op("info").set("i", (int64_t)g.range(-2, sr.nlinks + 1)); continue; }
       else seek_op(g.chance(0.07) ? "_lap" : "", true, oor);   // (a lapped seek: past its lap region the position/audio contract is the plain one)
       int nr = (int)g.range(0, 3); for (int j = 0; j < nr; j++) read_op(p_int);
